@@ -39,6 +39,7 @@ class ClassDef:
     fields: list[FieldDef] = field(default_factory=list)
     extra_body: str = ""
     slots: bool = False
+    more_bases: tuple[str, ...] = ()  # multiple inheritance: further bases after `base`
 
 
 ANY = ("Base",)
@@ -115,6 +116,19 @@ TABLE: list[ClassDef] = [
         ],
     ),
     ClassDef("InhMixed", "Mixed", [FieldDef("more", "tuple[Base, ...]", "tuple", "()", classes=ANY)]),
+    # a slotted class (the dataclass decorator creates the class object twice)
+    ClassDef("SlotLeaf", "Base", [FieldDef("v", "int", "int", "0"), FieldDef("s", "str", "str", '""')], slots=True),
+    # classes sharing their child field names with another class, declared in another order / with another shape
+    ClassDef("PairAB", "Base", [FieldDef("left", "Base | None", "opt", "None", classes=ANY),
+                                FieldDef("right", "Base | None", "opt", "None", classes=ANY)]),
+    ClassDef("PairBA", "Base", [FieldDef("right", "Base | None", "opt", "None", classes=ANY),
+                                FieldDef("left", "Base | None", "opt", "None", classes=ANY)]),
+    ClassDef("MixedRev", "Base", [FieldDef("items", "Base | None", "opt", "None", classes=ANY),
+                                  FieldDef("child", "tuple[Base, ...]", "tuple", "()", classes=ANY)]),
+    # multiple inheritance: two bases with their own fields and an empty class combining them
+    ClassDef("TagA", "Base", [FieldDef("ta", "int", "int", "0")]),
+    ClassDef("TagB", "Base", [FieldDef("tb", "str", "str", '""'), FieldDef("kid", "Base | None", "opt", "None", classes=ANY)]),
+    ClassDef("Both", "TagA", [], more_bases=("TagB",)),
     # C16: a property whose (de)serialization can be made to raise, and a field name that sorts
     # before the type tag
     ClassDef(
@@ -132,13 +146,30 @@ BY_NAME: dict[str, ClassDef] = {c.name: c for c in TABLE}
 CLASS_NAMES = [c.name for c in TABLE]
 
 
+def _linearize(name: str) -> list[str]:
+    """C3 linearisation restricted to the universe (ASTNode excluded)"""
+    if name == "ASTNode":
+        return []
+    c = BY_NAME[name]
+    seqs = [_linearize(b) for b in (c.base, *c.more_bases)] + [[b for b in (c.base, *c.more_bases) if b != "ASTNode"]]
+    out = [name]
+    seqs = [s for s in seqs if s]
+    while seqs:
+        for s in seqs:
+            head = s[0]
+            if not any(head in t[1:] for t in seqs):
+                break
+        else:  # pragma: no cover
+            raise TypeError("inconsistent hierarchy")
+        out.append(head)
+        seqs = [[x for x in t if x != head] for t in seqs]
+        seqs = [t for t in seqs if t]
+    return out
+
+
 def mro_names(name: str) -> list[str]:
     """class names from the class itself up to Base (universe part of the MRO)."""
-    out = []
-    while name != "ASTNode":
-        out.append(name)
-        name = BY_NAME[name].base
-    return out
+    return _linearize(name)
 
 
 def is_subclass(name: str, base: str) -> bool:
@@ -146,12 +177,11 @@ def is_subclass(name: str, base: str) -> bool:
 
 
 def all_fields(name: str) -> list[FieldDef]:
-    """user fields in dataclass order (base class fields first, declaration order)."""
-    chain = list(reversed(mro_names(name)))
+    """user fields in dataclass order: bases in reverse MRO order, then the class' own fields;
+    an override keeps the position of the field it overrides."""
     out: list[FieldDef] = []
-    for cn in chain:
+    for cn in reversed(mro_names(name)):
         for f in BY_NAME[cn].fields:
-            # an override keeps its original position
             for i, g in enumerate(out):
                 if g.name == f.name:
                     out[i] = f
@@ -231,8 +261,8 @@ def emit_source(perm_seed: int | None = None) -> str:
     rnd = random.Random(perm_seed) if perm_seed is not None else None
     out = [HEADER]
     for c in TABLE:
-        out.append("\n@dataclass(frozen=True, kw_only=True)\n")
-        out.append(f"class {c.name}({c.base}):\n")
+        out.append("\n@dataclass(frozen=True, kw_only=True" + (", slots=True, weakref_slot=True" if c.slots else "") + ")\n")
+        out.append(f"class {c.name}({', '.join((c.base, *c.more_bases))}):\n")
         flds = list(c.fields)
         if rnd is not None:
             rnd.shuffle(flds)
